@@ -375,6 +375,10 @@ def plan(tier, seed):
     for s in sim_scenarios_small_reads()[: 1 if tier == "quick" else 2]:
         for p in range(8):
             specs.append({"mode": "sim-enum2", "scn": s, "part": p, "parts": 8, "window": 80 if tier == "quick" else 200})
+    allscn = sim_scenarios()
+    for s in ([allscn[0]] if tier == "quick" else [allscn[0], allscn[2], allscn[4]]):
+        for p in range(8):
+            specs.append({"mode": "sim-enum2", "shape": "flush", "scn": s, "part": p, "parts": 8, "window": 25 if tier == "quick" else 80})
     return specs
 
 
@@ -418,8 +422,18 @@ def run_shard(spec):
         def second(site):
             return isinstance(site, tuple) and site[0] in ("service", "send_continue")
 
+        if spec.get("shape") == "flush":
+            # the worker is about to finish the request in front of the expecting one when the I/O thread
+            # takes over and is itself interrupted in the middle of flushing output (holding the output lock)
+            def first(site, cur):  # noqa: F811
+                return isinstance(site, tuple) and site[0] in ("service", "finish", "close")
+
+            def second(site):  # noqa: F811
+                return isinstance(site, tuple) and site[0] in ("_flush_some", "_flush_some_if_lockable", "handle_write", "send", "get")
+
         k = 0
-        for sw in runner.double_preemptions(scn, first, window=spec.get("window", 80), second="target", second_filter=second):
+        for sw in runner.double_preemptions(scn, first, window=spec.get("window", 80),
+                                            second="other" if spec.get("shape") == "flush" else "target", second_filter=second):
             k += 1
             if k % spec["parts"] != spec["part"]:
                 continue
